@@ -231,13 +231,14 @@ namespace SMV.Reg
 
 open SMV.Prov
 
-/-- **C12 (registered once).** The keys of an executor are pairwise distinct: every resolved
-callback (`name@provider`, or an inline callable) is registered exactly once, whatever the specs
+/-- **C12 (registered once).** The de-duplication keys of an executor are pairwise distinct: every resolved
+callback (`name@provider`, or an inline callable; for guards together with the expected truth value, so that
+`cond="x"` and `unless="x"` are two guards — D32) is registered exactly once, whatever the specs
 (duplicated specs included), however many providers share an id and however often a listener is
 attached. -/
 theorem C12_reg_keys_nodup (specs : List Spec) (ctor : List Provider) (late : List (List Provider))
-    (g : Group) : ((executor specs ctor late g).map (·.key)).Nodup :=
-  executor_induct (fun ex => (ex.map (·.key)).Nodup) specs ctor late g (by simp)
+    (g : Group) : ((executor specs ctor late g).map (·.dk)).Nodup :=
+  executor_induct (fun ex => (ex.map (·.dk)).Nodup) specs ctor late g (by simp)
     fun ex e h _ => add_keys_nodup ex e h
 
 /-- **C12 (call order = priority order).** Priorities never decrease along an executor. -/
@@ -314,7 +315,7 @@ the executor. -/
 theorem C12_reg_complete (specs : List Spec) (ctor : List Provider) (late : List (List Provider))
     (g : Group) (s : Spec) (hs : s ∈ specs) (hg : s.group = g) (n : Name) (hr : s.ref = .name n)
     (p : Provider) (hp : p ∈ ctor ++ late.flatten) (cb : CbId) (ho : offers p n = some cb) :
-    seen (executor specs ctor late g) (.named n p.id) = true := by
+    seen (executor specs ctor late g) (.named n p.id, s.expected) = true := by
   rw [executor_eq]
   rcases List.mem_append.mp hp with hc | hl
   · apply seen_lateFold_mono
@@ -329,7 +330,7 @@ resolved by the constructor pass, independently of the providers). -/
 theorem C12_reg_complete_callable (specs : List Spec) (ctor : List Provider)
     (late : List (List Provider)) (g : Group) (s : Spec) (hs : s ∈ specs) (hg : s.group = g)
     (cb : CbId) (hr : s.ref = .callable cb) :
-    seen (executor specs ctor late g) (.callable cb) = true := by
+    seen (executor specs ctor late g) (.callable cb, s.expected) = true := by
   rw [executor_eq]
   apply seen_lateFold_mono
   exact seen_resolveInto_mem false ctor g specs [] s hs ⟨hg, Or.inl rfl⟩ _
